@@ -359,7 +359,11 @@ func run(t *testing.T, tape *simrt.Tape) *hx.Outcome {
 					if len(ents) != len(live) {
 						var names []string
 						for _, e := range ents {
-							names = append(names, e.Name())
+							n := e.Name()
+							if strings.HasPrefix(n, "new-") {
+								n = "new-*" // temp names are not seeded: keep them out of the log
+							}
+							names = append(names, n)
 						}
 						s.Fail("leftovers-after-cleanup", "%s: after one Cleanup %d directories %v remain under snapshots/ for %d live snapshots", where, len(ents), names, len(live))
 						return
